@@ -30,6 +30,7 @@ type rule struct {
 	port    uint64 // REDIRECT / TPROXY
 	mark    uint64 // MARK / TPROXY value
 	mmask   uint64
+	zone    uint64 // CT --zone
 	err     string
 }
 
@@ -197,9 +198,15 @@ func parseRule(fields []string, v6 bool) *rule {
 				case o == "--restore-mark" && v == "CONNMARK":
 					r.target = "CONNMARK-RESTORE"
 				case o == "--zone" && v == "CT":
-					if _, ok := next(); !ok {
+					a, ok := next()
+					if !ok {
 						return fail("dangling --zone")
 					}
+					n, err := strconv.ParseUint(a, 10, 16)
+					if err != nil {
+						return fail("bad zone %q", a)
+					}
+					r.zone = n
 				default:
 					return fail("unsupported target option %q", o)
 				}
@@ -354,6 +361,7 @@ type fate struct {
 	dropped, loop    bool
 	tproxy, redirect int64 // -1 = none
 	mark, connmark   uint64
+	zone             uint64 // conntrack zone assigned in raw (0 = default zone); seen by the oracle only
 	err              string
 }
 
@@ -427,6 +435,9 @@ func (rs *ruleset) walkTable(table string, p *packet, f *fate) string {
 		case "CONNMARK-RESTORE":
 			p.mark = p.connmark
 		case "CT":
+			if f.zone == 0 { // xt_CT leaves a packet alone that already has a conntrack template
+				f.zone = r.zone
+			}
 		default:
 			if len(stack) >= limit {
 				return "LOOP"
@@ -447,7 +458,7 @@ func (rs *ruleset) traverse(p packet) fate {
 	for _, t := range []string{"raw", "mangle", "nat"} {
 		// nat: only for the packet that creates the connection, and not again at PREROUTING for a locally
 		// generated connection coming back in through lo (its NAT binding was made at nat/OUTPUT)
-		if t == "nat" && (p.ctstate != "NEW" || (p.hook == "PREROUTING" && p.inIf == "lo")) {
+		if t == "nat" && (!natState(p.ctstate) || (p.hook == "PREROUTING" && p.inIf == "lo")) {
 			continue
 		}
 		v := rs.walkTable(t, &p, &f)
@@ -463,3 +474,8 @@ func (rs *ruleset) traverse(p packet) fate {
 	f.mark, f.connmark = p.mark, p.connmark
 	return f
 }
+
+// natState: the kernel (nf_nat_inet_fn) walks the nat table for the packet that creates a conntrack entry:
+// a NEW one, or the first packet of an expected (RELATED) connection. In this packet model RELATED stands
+// for that first packet; later packets of either connection are ESTABLISHED.
+func natState(ct string) bool { return ct == "NEW" || ct == "RELATED" }
